@@ -1,6 +1,10 @@
 package calendar
 
-import "github.com/6tail/lunar-go/LunarUtil"
+import (
+	"container/list"
+
+	"github.com/6tail/lunar-go/LunarUtil"
+)
 
 // C11a (field-level): routes agree on every InvLunar state.
 func VH_C11_Routes() {
@@ -111,4 +115,155 @@ func VH_C11_TimeObject() {
 		vAssert("timeobj:tian-shen", t.GetTianShen() == l.GetTimeTianShen())
 	})
 	vReach("C11d")
+}
+
+func vhSameStrList(x, y *list.List) bool {
+	if x == nil || y == nil || x.Len() != y.Len() || x.Len() == 0 {
+		return false
+	}
+	j := y.Front()
+	for i := x.Front(); i != nil; i = i.Next() {
+		if i.Value.(string) != j.Value.(string) {
+			return false
+		}
+		j = j.Next()
+	}
+	return true
+}
+
+// index 0..59 of the stem-branch pair (g, z) in the sexagenary cycle
+func vhJiaZiOf(g, z int) int {
+	for i := 0; i < 60; i++ {
+		if i%10 == g && i%12 == z {
+			return i
+		}
+	}
+	return -1
+}
+
+// C18d (field-level): the list-valued almanac attributes are functions of their defining inputs:
+// K=0 auspicious / inauspicious spirits by lunar month NUMBER (a leap month counts as its month) and day pillar,
+// K=1 suitable / avoid lists by (month pillar, day pillar), K=2 the same under the exact month pillar (sect 2),
+// K=3 hour suitable / avoid lists by (early-rat day pillar, hour pillar), both routes.
+// The defining inputs are case-split by the solver (vConcretize).  The pillar variants that are NOT defining inputs
+// (early-rat day pillar, the other month pillar, sign of the month) are walked as a concrete menu v inside the path, each
+// menu entry guarded by the symbolic condition "this state has that variant": an accessor that reads a non-defining
+// variant gives different lists for some entry, and the solver then decides whether two InvLunar states realise it.
+func VH_C18_ListPure() {
+	vhFieldLevel = true
+	base := NewSolar(vParam("Y"), 6, 15, 12, 0, 0).GetLunar()
+	a, b := vhLunarSym("a", base), vhLunarSym("b", base)
+	M := vParam("M")
+	K := vParam("K")
+	ab := []*Lunar{a, b}
+	// symbolic facts about the two states, read before any field is overridden
+	var late, lag, leap [2]bool
+	for i, x := range ab {
+		late[i] = x.hour == 23
+		lag[i] = x.monthZhiIndexExact != x.monthZhiIndex
+		leap[i] = x.month < 0
+	}
+	dp, mp := 0, 0
+	switch K {
+	case 0:
+		vAssume((a.month == M || a.month == -M) && (b.month == M || b.month == -M))
+		vAssume(a.dayGanIndex == b.dayGanIndex && a.dayZhiIndex == b.dayZhiIndex)
+		dp = vhJiaZiOf(vConcretize(a.dayGanIndex), vConcretize(a.dayZhiIndex))
+	case 1:
+		vAssume(a.monthZhiIndex == M && b.monthZhiIndex == M && a.monthGanIndex == b.monthGanIndex)
+		vAssume(a.dayGanIndex == b.dayGanIndex && a.dayZhiIndex == b.dayZhiIndex)
+		mp = vhJiaZiOf(vConcretize(a.monthGanIndex), M)
+		dp = vhJiaZiOf(vConcretize(a.dayGanIndex), vConcretize(a.dayZhiIndex))
+	case 2:
+		vAssume(a.monthZhiIndexExact == M && b.monthZhiIndexExact == M && a.monthGanIndexExact == b.monthGanIndexExact)
+		vAssume(a.dayGanIndex == b.dayGanIndex && a.dayZhiIndex == b.dayZhiIndex)
+		mp = vhJiaZiOf(vConcretize(a.monthGanIndexExact), M)
+		dp = vhJiaZiOf(vConcretize(a.dayGanIndex), vConcretize(a.dayZhiIndex))
+	default:
+		vAssume(a.timeZhiIndex == M && b.timeZhiIndex == M && a.timeGanIndex == b.timeGanIndex)
+		vAssume(a.dayGanIndexExact == b.dayGanIndexExact && a.dayZhiIndexExact == b.dayZhiIndexExact)
+		dp = vhJiaZiOf(vConcretize(a.dayGanIndexExact), vConcretize(a.dayZhiIndexExact))
+		tg := vConcretize(a.timeGanIndex)
+		for _, x := range ab {
+			x.timeZhiIndex, x.timeGanIndex = M, tg
+		}
+	}
+	for v := 0; v < 64; v++ {
+		// menu entry: bit0/1 late(a/b), bit2/3 lag(a/b), bit4/5 leap(a/b); entries that do not matter for K are skipped
+		bit := func(k int) bool { return v>>k&1 == 1 }
+		if (K != 0 && v >= 16) || (K == 0 || K == 3) && (bit(2) || bit(3)) {
+			continue
+		}
+		for i, x := range ab {
+			l8, lg := 0, 0
+			if bit(i) {
+				l8 = 1
+			}
+			if bit(2 + i) {
+				lg = 1
+			}
+			switch K {
+			case 0, 1, 2:
+				x.dayGanIndex, x.dayZhiIndex = dp%10, dp%12
+				e := (dp + l8) % 60
+				x.dayGanIndexExact, x.dayZhiIndexExact = e%10, e%12
+			default:
+				n := (dp + 60 - l8) % 60
+				x.dayGanIndexExact, x.dayZhiIndexExact = dp%10, dp%12
+				x.dayGanIndex, x.dayZhiIndex = n%10, n%12
+			}
+			x.dayGanIndexExact2, x.dayZhiIndexExact2 = x.dayGanIndex, x.dayZhiIndex
+			switch K {
+			case 0:
+				x.month = M
+				if bit(4 + i) {
+					x.month = -M
+				}
+			case 1:
+				e := (mp + 60 - lg) % 60
+				x.monthGanIndex, x.monthZhiIndex, x.monthGanIndexExact, x.monthZhiIndexExact = mp%10, mp%12, e%10, e%12
+			case 2:
+				n := (mp + lg) % 60
+				x.monthGanIndexExact, x.monthZhiIndexExact, x.monthGanIndex, x.monthZhiIndex = mp%10, mp%12, n%10, n%12
+			}
+		}
+		// "the two states have exactly this variant combination"
+		realised := func() bool {
+			ok := late[0] == bit(0) && late[1] == bit(1)
+			if K == 1 || K == 2 {
+				ok = ok && lag[0] == bit(2) && lag[1] == bit(3)
+			}
+			if K == 0 {
+				ok = ok && leap[0] == bit(4) && leap[1] == bit(5)
+			}
+			return ok
+		}
+		chk := func(id string, same bool) {
+			if !same {
+				vAssert(id, !realised())
+			}
+		}
+		switch K {
+		case 0:
+			chk("list-pure:GetDayJiShen", vhSameStrList(a.GetDayJiShen(), b.GetDayJiShen()))
+			chk("list-pure:GetDayXiongSha", vhSameStrList(a.GetDayXiongSha(), b.GetDayXiongSha()))
+		case 1:
+			chk("list-pure:GetDayYi", vhSameStrList(a.GetDayYi(), b.GetDayYi()))
+			chk("list-pure:GetDayJi", vhSameStrList(a.GetDayJi(), b.GetDayJi()))
+			chk("list-route:GetDayYiBySect(1)", vhSameStrList(a.GetDayYi(), a.GetDayYiBySect(1)))
+			chk("list-route:GetDayJiBySect(1)", vhSameStrList(a.GetDayJi(), a.GetDayJiBySect(1)))
+		case 2:
+			chk("list-pure:GetDayYiBySect(2)", vhSameStrList(a.GetDayYiBySect(2), b.GetDayYiBySect(2)))
+			chk("list-pure:GetDayJiBySect(2)", vhSameStrList(a.GetDayJiBySect(2), b.GetDayJiBySect(2)))
+		default:
+			chk("list-pure:GetTimeYi", vhSameStrList(a.GetTimeYi(), b.GetTimeYi()))
+			chk("list-pure:GetTimeJi", vhSameStrList(a.GetTimeJi(), b.GetTimeJi()))
+			t := &LunarTime{lunar: a, zhiIndex: a.timeZhiIndex, ganIndex: a.timeGanIndex}
+			chk("list-route:LunarTime.GetYi", vhSameStrList(t.GetYi(), a.GetTimeYi()))
+			chk("list-route:LunarTime.GetJi", vhSameStrList(t.GetJi(), a.GetTimeJi()))
+		}
+	}
+	vAssert("list-pure:walked", true)
+	vhFieldLevel = false
+	vReach("C18d")
 }
